@@ -155,4 +155,25 @@ def run(ctx, rep):
         rep.discharged("C12/d/del>=", "load matching never decreases the energy delivered by the grid")
     else:
         rep.underivable("C12/d/del>=", "load matching never decreases the energy delivered by the grid", construct=where)
+    # (e) the command-line program: "without load matching" is "the option --load_matching was not given" - the value
+    # reaching energy_performance is the presence of the option and nothing else (no file content can switch it on)
+    from .c19 import find_calls
+    from .c16 import MAIN_SUMMARIES
+    mb = ctx.find_public_fn(ctx.bin, "main")
+    evm, _r, _a = ctx.eval_entry("bin", mb, opaque=MAIN_SUMMARIES)
+    eps = find_calls(evm, "summary:balance::energy_performance")
+    if len(eps) != 1 or len(eps[0].a) != 6:
+        rep.violated("C12/e/anchor", "main calls energy_performance(components, factors, k_exp, arearef, load_matching) once",
+                     construct=loc_of(mb), why="found %d calls" % len(eps))
+    else:
+        lmv = eps[0].a[5]
+        present = tm.mk("cli_present", tm.string("load_matching"))
+        off = tm.subst(lmv, {present: tm.FALSE})
+        on = tm.subst(lmv, {present: tm.TRUE})
+        if off is tm.FALSE and on is tm.TRUE:
+            rep.discharged("C12/e/cli", "the program evaluates with load matching exactly when --load_matching is given")
+        else:
+            rep.violated("C12/e/cli", "without the option --load_matching the evaluation is made without load matching (factor 1)",
+                         construct=loc_of(mb), why="without the option the value passed is %s; with it %s"
+                         % (tm.show(off, 4)[:200], tm.show(on, 4)[:100]))
     rep.analysed = {"instances": "ELECTRICIDAD x {lm off, lm on}; get_priorities on 12 carriers"}
